@@ -31,6 +31,8 @@ PAL_MORE = [
     ({'k': 'str', 'v': 'bold;red'}, ['1', '31']),
     ({'k': 'aset', 'v': '31'}, ['31']),
     ({'k': 'int', 'v': 0}, ['0']),
+    ({'k': 'aset_astr', 'v': '1'}, ['1']),
+    ({'k': 'aset_astr', 'v': '38;5;9'}, ['38;5;9']),
     ({'k': 'str', 'v': 'rgb(10,20,30)'}, ['38;2;10;20;30']),
     ({'k': 'str', 'v': 'bg_color256(7)'}, ['48;5;7']),
     ({'k': 'str', 'v': 'rgb(0xFF0000)'}, ['38;2;255;0;0']),
